@@ -434,8 +434,41 @@ class Engine:
                 return True
         return False
 
+    @staticmethod
+    def _module_state_names(mod):
+        """module-level names that are mutable state, not constants: rebound through `global`, or a container changed in place
+        (item assignment, deletion, mutator methods) somewhere in the module"""
+        cached = getattr(mod, "_state_names", None)
+        if cached is not None:
+            return cached
+        names = set()
+        muts = {"append", "extend", "insert", "add", "update", "setdefault", "pop", "popitem", "clear", "remove", "discard", "sort", "reverse",
+                "appendleft", "move_to_end", "cache_clear"}
+        for n in ast.walk(mod.tree) if hasattr(mod, "tree") else []:
+            if isinstance(n, ast.Global):
+                names.update(n.names)
+            elif isinstance(n, ast.Subscript) and isinstance(n.ctx, (ast.Store, ast.Del)) and isinstance(n.value, ast.Name):
+                names.add(n.value.id)
+            elif isinstance(n, ast.Call) and isinstance(n.func, ast.Attribute) and n.func.attr in muts and isinstance(n.func.value, ast.Name):
+                names.add(n.func.value.id)
+        names &= set(mod.consts)
+        mod._state_names = names
+        return names
+
     def module_const(self, mod, name, fr):
         node = mod.consts[name]
+        if name in self._module_state_names(mod):
+            # module-level mutable state (a cache, a registry): its content when the function is entered is whatever earlier calls in
+            # the process left there - an arbitrary value, the same one throughout this verification
+            memo = self.__dict__.setdefault("_module_state", {})
+            key = (getattr(self.report, "key", None), mod.relpath, name)
+            if key not in memo:
+                v = mk_V(z3.Const(f"{mod.relpath}:{name}@entry", V))
+                if isinstance(node, (ast.Dict, ast.DictComp)) or (isinstance(node, ast.Call) and dotted(node.func) in ("dict", "collections.OrderedDict", "OrderedDict", "collections.defaultdict", "defaultdict")):
+                    v.meta = {"coll": "map"}
+                memo[key] = v
+                self.note(f"{mod.relpath}: module-level name {name!r} is mutable state (changed in place / rebound in the module): arbitrary content at entry")
+            return memo[key]
         if isinstance(node, ast.Call) and dotted(node.func) == "object" and not node.args:
             # a module-level sentinel `NAME = object()`: a distinct object, never None
             c = z3.Const(f"{mod.relpath}:{name}", V)
